@@ -371,6 +371,22 @@ pub unsafe fn give_terminal_to(gid: i32) -> bool {
     given
 }
 
+fn count_syntax_chars(text: &str) -> usize {
+    text.chars().filter(|c| matches!(c, '|' | '&' | '<' | '>')).count()
+}
+
+/// Store the result of an expansion into a token. When the expansion put
+/// a `|`, `&`, `<` or `>` into an unquoted word, the word is data from now
+/// on (as if it had been written in double quotes): text coming out of a
+/// variable, a command or a file name must never act as a pipe, background
+/// marker or redirection.
+fn set_expanded_token(token: &mut types::Token, text: &str) {
+    if token.0.is_empty() && count_syntax_chars(text) > count_syntax_chars(&token.1) {
+        token.0 = String::from("\"");
+    }
+    token.1 = text.to_string();
+}
+
 fn needs_globbing(line: &str) -> bool {
     let re = Regex::new(r"\*+").expect("Invalid regex ptn");
     re.is_match(line)
@@ -437,7 +453,7 @@ pub fn expand_glob(tokens: &mut types::Tokens) {
     for (i, result) in buff.iter().rev() {
         tokens.remove(*i);
         for (j, token) in result.iter().enumerate() {
-            let sep = if token.contains(' ') { "\"" } else { "" };
+            let sep = if token.contains(' ') || count_syntax_chars(token) > 0 { "\"" } else { "" };
             tokens.insert(*i + j, (sep.to_string(), token.clone()));
         }
     }
@@ -812,7 +828,7 @@ pub fn expand_env(sh: &Shell, tokens: &mut types::Tokens) {
     }
 
     for (i, text) in buff.iter().rev() {
-        tokens[*i].1 = text.to_string();
+        set_expanded_token(&mut tokens[*i], text);
     }
 }
 
@@ -888,7 +904,7 @@ fn do_command_substitution_for_dollar(sh: &mut Shell, tokens: &mut types::Tokens
     }
 
     for (i, text) in buff.iter() {
-        tokens[*i].1 = text.to_string();
+        set_expanded_token(&mut tokens[*i], text);
     }
 }
 
@@ -984,7 +1000,7 @@ fn do_command_substitution_for_dot(sh: &mut Shell, tokens: &mut types::Tokens) {
     }
 
     for (i, text) in buff.iter() {
-        tokens[*i].1 = text.to_string();
+        set_expanded_token(&mut tokens[*i], text);
     }
 }
 
